@@ -501,6 +501,31 @@ pub fn gen(tier: &str, rng: &mut Rng, out: &mut Vec<String>) {
         gen_expand(rng, out);
     }
     if tier == "thorough" {
+        // exhaustive small scope for the sparse routines: every subset of the 3x3 grid, every subset of at most 4 points
+        // of the 4x4 grid, k = 1..3 (lcskpp and sdpkpp/union); every pair of strings over {a,b} up to length 4, k = 1, 2
+        let mut grids: Vec<Vec<(u32, u32)>> = vec![];
+        for mask in 0u32..512 {
+            grids.push((0..9).filter(|b| mask >> b & 1 == 1).map(|b| (b / 3, b % 3)).collect());
+        }
+        for mask in 0u32..65536 {
+            if mask.count_ones() <= 4 {
+                grids.push((0..16).filter(|b| mask >> b & 1 == 1).map(|b| (b / 4, b % 4)).collect());
+            }
+        }
+        for g in &grids {
+            for k in 1..=3 {
+                out.push(format!("lcs {} {}", k, show_pairs(g)));
+                out.push(format!("sdp {} 1 1 1 {}", k, show_pairs(g)));
+            }
+        }
+        let strs = enum_seqs(b"ab", 4);
+        for x in &strs {
+            for y in &strs {
+                for k in 1..=2 {
+                    out.push(format!("kmer {} {} {} 1 1 1", k, hex(x), hex(y)));
+                }
+            }
+        }
         // exhaustive small scope: alphabets of 1, 2, 3 symbols, q ≤ 2, all texts of length ≤ 6,
         // every q-gram, and every pattern of length ≤ 3 through `matches` (min_count 1) and `exact_matches`
         for n in 1..=3usize {
